@@ -52,6 +52,8 @@ pub struct Gen<'a, 'b> {
     counter: u32,
     /// construct labels used (class counters)
     pub used: Vec<&'static str>,
+    /// statements to emit right after the current one
+    pending: Vec<Stmt>,
 }
 
 const STRS: [&str; 9] = ["", "a", "b", "foo", "true", "1", "ab", "x y", "foo bar"];
@@ -61,7 +63,7 @@ const FIELDS: [&str; 6] = ["a", "b", "c", "foo", "bar", "x"];
 
 impl<'a, 'b> Gen<'a, 'b> {
     pub fn new(t: &'a mut Tape<'b>, cfg: GenCfg) -> Self {
-        Gen { t, cfg, scope: vec![], counter: 0, used: vec![] }
+        Gen { t, cfg, scope: vec![], counter: 0, used: vec![], pending: vec![] }
     }
 
     fn mark(&mut self, l: &'static str) {
@@ -925,20 +927,29 @@ impl<'a, 'b> Gen<'a, 'b> {
             5 => {
                 // a function that reads several fields of one tuple parameter
                 self.mark("record-function");
-                let rec_ty = Ty::Tuple(vec![("a".into(), Ty::Int), ("b".into(), Ty::Int), ("c".into(), Ty::Str)]);
+                let rec_ty = Ty::Tuple(vec![("a".into(), Ty::Int), ("b".into(), Ty::Int), ("c".into(), Ty::Str), ("d".into(), Ty::Int)]);
                 let taken: Vec<String> = vec![];
                 let p = self.param_name(&taken);
                 let fld = |k: &str| E::Field(Box::new(E::Sym(p.clone())), Sel::Name(k.to_string()));
-                let (ret, body) = match self.t.choice(5) {
+                let (ret, body) = match self.t.choice(7) {
+                    5 => (Ty::Int, E::Bin(Op::Add, Box::new(E::Bin(Op::Mul, Box::new(fld("a")), Box::new(fld("b")))), Box::new(fld("d")))),
+                    6 => (Ty::List(Box::new(Ty::Int)), E::List(vec![fld("d"), fld("b"), fld("a"), fld("d")])),
                     0 => (Ty::Int, E::Bin(Op::Add, Box::new(fld("a")), Box::new(fld("b")))),
                     1 => (Ty::Bool, E::Bin(Op::Lt, Box::new(fld("b")), Box::new(fld("a")))),
                     2 => (Ty::List(Box::new(Ty::Int)), E::List(vec![fld("b"), fld("a"), fld("a")])),
                     3 => (Ty::Str, E::Bin(Op::Add, Box::new(fld("c")), Box::new(fld("c")))),
                     _ => (Ty::Tuple(vec![("b".into(), Ty::Str), ("a".into(), Ty::Int)]), E::Tuple(vec![("b".into(), fld("c")), ("a".into(), E::Bin(Op::Mul, Box::new(fld("a")), Box::new(fld("b"))))])),
                 };
-                let ty = Ty::Func(vec![rec_ty], Box::new(ret));
+                let ty = Ty::Func(vec![rec_ty.clone()], Box::new(ret.clone()));
                 let name = self.fresh("f");
                 self.scope.push((name.clone(), ty));
+                if self.t.chance(2, 3) {
+                    // and call it right away
+                    let arg = self.literal(&rec_ty, 2);
+                    let r = self.fresh("v");
+                    self.scope.push((r.clone(), ret));
+                    self.pending.push(Stmt::Let(r, E::Call { callee: Callee::Name(name.clone()), args: vec![arg] }));
+                }
                 Stmt::Let(name, E::Func { params: vec![p.clone()], body: Box::new(body) })
             }
             0 => {
@@ -997,6 +1008,8 @@ impl<'a, 'b> Gen<'a, 'b> {
         let mut out = vec![];
         for _ in 0..n {
             out.push(self.stmt());
+            // statements that belong right after the one just made
+            out.append(&mut self.pending);
         }
         // a rare rebinding (must fail)
         if !self.cfg.well_typed_only && self.t.chance(1, 40) {
